@@ -201,7 +201,7 @@ func TestVerifC17Child(t *testing.T) {
 	time.Sleep(time.Duration(rng.Int63n(int64(lull) + 1)))
 	if clean {
 		tr.Emit("CloseBegin")
-		cctx, cancel := context.WithTimeout(ctx, 20*time.Second)
+		cctx, cancel := context.WithTimeout(ctx, 150*time.Second)
 		defer cancel()
 		if err := e.Close(cctx); err != nil {
 			fail("Close", err)
